@@ -67,7 +67,7 @@ theorem roundTrip_keeps_entries (ix : Index) :
 theorem reload_keeps_content (s : State) (rp : Repo) :
     (reloadRepo s rp).blobs = rp.blobs ∧ (reloadRepo s rp).name = rp.name ∧ (reloadRepo s rp).uploads = [] ∧
     (reloadRepo s rp).index.manifests = (roundTrip rp.index).manifests := by
-  simp [reloadRepo]
+  simp [reloadRepo, reindex]
 
 /-- a read-only directory store is not collected on Close: its restart keeps every blob of every repository -/
 theorem restart_read_only_dir_keeps (s : State) (conf : Conf) (h1 : s.conf.store = "dir") (h2 : s.conf.ro = true)
